@@ -157,7 +157,7 @@ Theorem step_preserves_owned_all ct roots o s :
   TypeInv ct s -> Owned ct (heap s) ->
   TypeInv ct (snd (step ct roots o s)) /\ Owned ct (heap (snd (step ct roots o s))).
 Proof.
-  intros Hf Hn Hr Hop T O. apply no_inval_b_sound in Hn. apply no_reserved_b_sound in Hr.
+  intros Hf Hn Hr Hop T O. apply no_inval_b_sound in Hn. apply no_inval_spec in Hn. apply no_reserved_b_sound in Hr.
   assert (I : Inv ct (heap s)) by (split; auto).
   change (Inv ct (heap (snd (step ct roots o s)))).
   destruct o as [| x a v | | x hp hh | x | ob]; simpl in Hop; try discriminate.
@@ -324,7 +324,7 @@ Theorem step_preserves_owned_final ct roots o s :
 Proof.
   intros Hf Hn Hr Hop T O. unfold owned_opf_b in Hop. apply orb_true_iff in Hop.
   destruct Hop as [Hop|Hop]; [now apply step_preserves_owned_all|].
-  pose proof (no_inval_b_sound ct Hn) as Hn'. pose proof (no_reserved_b_sound ct Hr) as Hr'.
+  pose proof (no_inval_spec ct (no_inval_b_sound ct Hn)) as Hn'. pose proof (no_reserved_b_sound ct Hr) as Hr'.
   assert (I : Inv ct (heap s)) by (split; auto).
   change (Inv ct (heap (snd (step ct roots o s)))).
   destruct o as [c pos kw| | x a | x hp hh | |]; try discriminate.
@@ -408,7 +408,7 @@ Theorem step_preserves_owned_g ct roots o s :
 Proof.
   intros Hf Hn Hr Hop T O. unfold owned_opg_b in Hop. apply orb_true_iff in Hop.
   destruct Hop as [Hop|Hop]; [now apply step_preserves_owned_final|].
-  pose proof (no_inval_b_sound ct Hn) as Hn'. pose proof (no_reserved_b_sound ct Hr) as Hr'.
+  pose proof (no_inval_spec ct (no_inval_b_sound ct Hn)) as Hn'. pose proof (no_reserved_b_sound ct Hr) as Hr'.
   assert (I : Inv ct (heap s)) by (split; auto).
   change (Inv ct (heap (snd (step ct roots o s)))).
   destruct o as [| | | x hp hh | |]; try discriminate.
